@@ -473,7 +473,8 @@ class Verifier:
         rng = random.Random(self.seed * 7919 + index)
         t0 = time.time()
         # ---- native cross-check on samples (bounded engine R; also the CPython cross-check of the models)
-        native_bad = self.native_samples(contract, fn, rng) if shard[0] == 0 else []
+        self._shard = shard
+        native_bad = self.native_samples(contract, fn, rng) if (shard[0] == 0 or contract.cases is not None) else []
         if contract.native_only:
             if native_bad:
                 args, d = native_bad[0]
@@ -552,8 +553,14 @@ class Verifier:
             rep.canaries[1] += 1
             if canary_refuted:
                 rep.canaries[0] += 1
-            elif not unsupported and not failed:
-                rep.engine_error(f"canary verified for {fname}: negated ensures never refuted (vacuous proof?)")
+            elif not unsupported and not failed and shard[1] == 1:
+                if canary_total == 0 and npaths > 0:
+                    # the function never returns normally under its precondition although the contract expects results
+                    full = f"{self.prop}/{fname}#{index}/vacuity:no-returning-path"
+                    rep.fail(full, "z3", "every path under the precondition raises; the ensures clauses were never reached", 0.0, contract.kind, fname)
+                    rep.violation(full, {"contract": fname, "clause": "no returning path", "note": "all paths raise"}, no_input=True)
+                else:
+                    rep.engine_error(f"canary verified for {fname}: negated ensures never refuted (vacuous proof?)")
         if npaths == 0 and not unsupported and shard[1] == 1:
             rep.engine_error(f"{fname}: precondition infeasible, zero paths")
         rep.sample({"function": fname, "paths": npaths, "obligations": nob,
@@ -712,7 +719,8 @@ class Verifier:
             bad = []
             evals = 0
             allcases = contract.cases(getattr(self.report, "tier", "quick"))
-            for args in allcases:
+            sh = getattr(self, "_shard", (0, 1))
+            for args in allcases[sh[0]::sh[1]]:
                 v, d = native_check(contract, fn, args)
                 if v == "pre-false":
                     continue
